@@ -362,7 +362,7 @@ impl Reader {
                     text.push(self.peek().unwrap());
                     self.pos += 1;
                 }
-                text.push_str(&self.digits(false)?);
+                text.push_str(&self.digits(true)?);
             }
         }
         let x: f64 = text.parse().map_err(|_| format!("bad number {text}"))?;
@@ -836,6 +836,16 @@ impl<'a> Writer<'a> {
             let head = if ihead.is_empty() { "0" } else { ihead };
             alts.push(format!("{head}.{ilast}{frac_part}e1"));
             alts.push(format!("{head}.{ilast}{frac_part}E+1"));
+        }
+        // '_' may separate digits anywhere digits are allowed: fraction and exponent too
+        if frac_part.len() >= 2 {
+            let (f1, fr) = frac_part.split_at(1);
+            alts.push(format!("{int_part}.{f1}_{fr}"));
+        }
+        alts.push(format!("{body}e0_0"));
+        alts.push(format!("{body}E+0_0"));
+        if frac_part.is_empty() {
+            alts.push(format!("{int_part}00e-0_2"));
         }
         if int_part.len() >= 2 {
             let mut u = String::new();
